@@ -232,7 +232,9 @@ class World:
 
 class Policy:
     """What to inline, what to keep uninterpreted, what to record as an effect."""
-    def __init__(self, inline=None, no_inline=(), effects=(), max_depth=8, stubs=None, atom_hint=None, loop_cut=None):
+    def __init__(self, inline=None, no_inline=(), effects=(), max_depth=8, stubs=None, atom_hint=None, loop_cut=None,
+                 split_try=None):
+        self.split_try = split_try    # 'option' | 'all': `x?` on an opaque Option (/Result) explores the early-return world too
         self.loop_cut = loop_cut      # int: a plain `loop` is unrolled this many times, longer runs are pruned (bounded unrolling)
         self.atom_hint = atom_hint    # fn(term) -> bool|None : fix the truth of some conditions instead of splitting
         self.inline = inline          # None = every in-crate fn with HIR; else predicate(path)
@@ -683,6 +685,10 @@ class State:
                     return ('ok', recv)
                 # unwrap_or* on opaque: split
                 self.split_enum(recv, OPTION if is_opt else RESULT, 'unwrap_or')
+            if last == 'or' and len(a) == 2:
+                if recv[0] == 'ctor':
+                    return recv if recv[2] == good else a[1]
+                self.split_enum(recv, OPTION if is_opt else RESULT, 'or')
             if last in ('is_some', 'is_ok', 'is_none', 'is_err'):
                 want_good = last in ('is_some', 'is_ok')
                 if recv[0] == 'ctor':
@@ -1388,6 +1394,12 @@ class State:
         if v[0] == 'ctor' and v[2] in ('Err', 'None'):
             self.effect('try_fail', '?', (v,), e)
             raise ReturnEx(v)
+        if self.policy.split_try:
+            head = self.adt_of_ty(x.get('ty'))
+            if head in (OPTION, 'core::option::Option') and v[0] not in ('ok',):
+                self.split_enum(v, OPTION, 'try')
+            elif self.policy.split_try == 'all' and head in (RESULT, 'core::result::Result') and v[0] not in ('ok',):
+                self.split_enum(v, RESULT, 'try')
         self.effect('try', '?', (v,), e)
         return ('ok', v)
 
@@ -1624,6 +1636,23 @@ class State:
                 ty = n.get('ty') or ''
                 if (explicit or is_recv) and not ty.startswith('&'):
                     out.append((n['id'], n.get('name')))
+                continue
+            # a mutable borrow wrapped in a value: `map.as_mut()`, `Some(&mut v)`, `v.iter_mut()` ...
+            if '&mut ' in (n.get('ty') or '') and not is_recv:
+                m = n
+                for _ in range(6):
+                    k = m.get('k')
+                    if k == 'MethodCall' and (m.get('method') or (m.get('callee') or '').split('::')[-1]) in (
+                            'as_mut', 'as_deref_mut', 'as_mut_slice', 'iter_mut', 'by_ref', 'unwrap', 'expect', 'get_mut'):
+                        m = m['recv']
+                    elif k == 'Call' and m.get('ctor') and len(m.get('args', [])) == 1:
+                        m = m['args'][0]
+                    elif k == 'AddrOf':
+                        m = m['e']
+                    else:
+                        break
+                if m.get('k') == 'Path' and m.get('res') == 'local' and not (m.get('ty') or '').startswith('&'):
+                    out.append((m['id'], m.get('name')))
         return out
 
     def havoc_after_opaque(self, e, env, result):
